@@ -317,19 +317,22 @@ theorem mem_erase {β : Type} (c : Map β) (k : Key) (x : Key × β) (h : x ∈ 
 
 /-- the cache after `updateCache k v e`: the new entry, or an old entry for another key -/
 theorem mem_updateCache (cfg : Cfg) (m : Mem) (k : Key) (v : Val) (e : Option Int) (x : Key × CacheEnt)
-    (h : x ∈ (updateCache cfg m k v e).cache) : x = (k, ⟨v, e⟩) ∨ (x ∈ m.cache ∧ x.1 ≠ k) := by
+    (h : x ∈ (updateCache cfg m k v e).cache) : x = (k, ⟨v, e⟩) ∨ (x ∈ m.cache ∧ x.1 ≠ k) ∨ (cfg.maxCache = 0 ∧ x ∈ m.cache) := by
   unfold updateCache at h
-  simp only [Map.put] at h
-  rcases List.mem_cons.mp h with h | h
-  · exact .inl h
-  · right
-    have h2 := mem_erase _ k x h
-    refine ⟨?_, h2.2⟩
-    split at h2
-    · split at h2
-      · exact List.mem_of_mem_eraseIdx h2.1
-      · exact List.mem_of_mem_eraseIdx h2.1
-    · exact h2.1
+  by_cases h0 : cfg.maxCache = 0
+  · simp only [h0, ↓reduceIte] at h
+    exact .inr (.inr ⟨h0, h⟩)
+  · simp only [h0, ↓reduceIte, Map.put] at h
+    rcases List.mem_cons.mp h with h | h
+    · exact .inl h
+    · right; left
+      have h2 := mem_erase _ k x h
+      refine ⟨?_, h2.2⟩
+      split at h2
+      · split at h2
+        · exact List.mem_of_mem_eraseIdx h2.1
+        · exact List.mem_of_mem_eraseIdx h2.1
+      · exact h2.1
 
 @[simp] theorem updateCache_kv (cfg : Cfg) (m : Mem) (k : Key) (v : Val) (e : Option Int) :
     (updateCache cfg m k v e).kv = m.kv := rfl
@@ -347,13 +350,14 @@ theorem MemInv.updateCache (cfg : Cfg) (m : Mem) (hi : MemInv m) (k : Key) (v : 
   cache := by
     intro x hx
     rw [look_updateCache]
-    rcases mem_updateCache cfg m k v e x hx with h | h
+    rcases mem_updateCache cfg m k v e x hx with h | h | h
     · subst h; exact hl
     · exact hi.cache x h.1
-  sub := hi.sub
-  nodupKv := hi.nodupKv
-  nodupExp := hi.nodupExp
-  noEmpty := hi.noEmpty
+    · exact hi.cache x h.2
+  sub := by simp only [updateCache_kv, updateCache_expiry]; exact hi.sub
+  nodupKv := by rw [updateCache_kv]; exact hi.nodupKv
+  nodupExp := by rw [updateCache_expiry]; exact hi.nodupExp
+  noEmpty := by rw [updateCache_kv]; exact hi.noEmpty
 
 end Iora.Kv
 
@@ -467,18 +471,29 @@ theorem MemInvX.of_single {m m0 : Mem} {k : Key} (hi : MemInv m) (hcache : m0.ca
   nodupExp := hn2
   noEmpty := hne
 
-theorem MemInvX.updateCache (cfg : Cfg) {m : Mem} {k : Key} (hi : MemInvX m k) (v : Val) (e : Option Int)
+/-- with `maxCacheSize == 0` the cache stays empty (so there is no stale entry `updateCache` could leave behind) -/
+def CacheOff (cfg : Cfg) (m : Mem) : Prop := cfg.maxCache = 0 → m.cache = []
+
+theorem CacheOff.updateCache (cfg : Cfg) (m : Mem) (hz : CacheOff cfg m) (k : Key) (v : Val) (e : Option Int) :
+    CacheOff cfg (updateCache cfg m k v e) := by
+  intro h0
+  unfold Iora.Kv.updateCache
+  simp only [h0, ↓reduceIte]
+  exact hz h0
+
+theorem MemInvX.updateCache (cfg : Cfg) {m : Mem} {k : Key} (hi : MemInvX m k) (hz : CacheOff cfg m) (v : Val) (e : Option Int)
     (hl : m.look k = some (v, e)) : MemInv (updateCache cfg m k v e) where
   cache := by
     intro x hx
     rw [look_updateCache]
-    rcases mem_updateCache cfg m k v e x hx with h | h
+    rcases mem_updateCache cfg m k v e x hx with h | h | h
     · subst h; exact hl
     · exact hi.cache x h.1 h.2
-  sub := hi.sub
-  nodupKv := hi.nodupKv
-  nodupExp := hi.nodupExp
-  noEmpty := hi.noEmpty
+    · rw [hz h.1] at h; exact absurd h.2 List.not_mem_nil
+  sub := by simp only [updateCache_kv, updateCache_expiry]; exact hi.sub
+  nodupKv := by rw [updateCache_kv]; exact hi.nodupKv
+  nodupExp := by rw [updateCache_expiry]; exact hi.nodupExp
+  noEmpty := by rw [updateCache_kv]; exact hi.noEmpty
 
 theorem MemInvX.invalidate {m : Mem} {k : Key} (hi : MemInvX m k) : MemInv (invalidateCache m k) where
   cache := by
@@ -514,7 +529,7 @@ theorem get?_erase_nil {β : Type} (m : Map β) (k : Key) (h : Map.get? m [] = n
   rw [Map.get?_erase]; simp [h]
 
 /-- `set(key, value)` -/
-theorem set_ok (cfg : Cfg) (w : W) (hi : MemInv w.mem) (k : Key) (v : Val) :
+theorem set_ok (cfg : Cfg) (w : W) (hi : MemInv w.mem) (hz : CacheOff cfg w.mem) (k : Key) (v : Val) :
     MemInv (opSet cfg w k v).1.mem ∧ (opSet cfg w k v).1.abs = specStep cfg.lim w.abs (.set k v)
       ∧ OutOK cfg.lim w.abs (.set k v) (opSet cfg w k v).2 := by
   unfold opSet
@@ -533,7 +548,7 @@ theorem set_ok (cfg : Cfg) (w : W) (hi : MemInv w.mem) (k : Key) (v : Val) :
         (get?_put_nil _ _ _ hk hi.noEmpty)
     have hl : Mem.look { w.mem with expiry := w.mem.expiry.erase k, kv := w.mem.kv.put k v } k = some (v, none) := by
       rw [look_set]; simp
-    refine ⟨MemInv.maybeCompact _ _ (hx.updateCache cfg v none hl), ?_, by simp [OutOK, hv]⟩
+    refine ⟨MemInv.maybeCompact _ _ (hx.updateCache cfg hz v none hl), ?_, by simp [OutOK, hv]⟩
     rw [abs_after]
     simp only [specStep, hv, Option.isSome_none, Bool.false_eq_true, ↓reduceIte, W.abs, SpecSt.mk.injEq, and_true]
     funext k'
@@ -553,7 +568,7 @@ theorem sub_put_put (m : Mem) (hi : MemInv m) (k : Key) (v : Val) (e : ExpEnt) (
   exact hi.sub k'
 
 /-- `set(key, value, ttl)` -/
-theorem setTtl_ok (cfg : Cfg) (w : W) (hi : MemInv w.mem) (k : Key) (v : Val) (ttl : Int) :
+theorem setTtl_ok (cfg : Cfg) (w : W) (hi : MemInv w.mem) (hz : CacheOff cfg w.mem) (k : Key) (v : Val) (ttl : Int) :
     MemInv (opSetTtl cfg w k v ttl).1.mem ∧ (opSetTtl cfg w k v ttl).1.abs = specStep cfg.lim w.abs (.setTtl k v ttl)
       ∧ OutOK cfg.lim w.abs (.setTtl k v ttl) (opSetTtl cfg w k v ttl).2 := by
   unfold opSetTtl
@@ -566,12 +581,12 @@ theorem setTtl_ok (cfg : Cfg) (w : W) (hi : MemInv w.mem) (k : Key) (v : Val) (t
       obtain ⟨hk, _, _⟩ := validate_none hv
       simp only [armTimer]
       refine ⟨MemInv.maybeCompact _ _ (MemInvX.updateCache cfg (MemInvX.of_single
-          (m0 := { w.mem with kv := w.mem.kv.put k v, expiry := w.mem.expiry.put k ⟨w.now + ttl * 1000, w.mem.nextTimer, false⟩, nextTimer := w.mem.nextTimer + 1 })
+          (m0 := { w.mem with kv := w.mem.kv.put k v, expiry := w.mem.expiry.put k ⟨deadlineAfter cfg.lim w.now ttl, w.mem.nextTimer, false⟩, nextTimer := w.mem.nextTimer + 1 })
           (k := k) hi rfl
           (fun k' hne => by rw [look_setE]; simp [hne])
           (sub_put_put w.mem hi k v _)
           (Map.nodup_put _ _ _ hi.nodupKv) (Map.nodup_put _ _ _ hi.nodupExp)
-          (get?_put_nil _ _ _ hk hi.noEmpty)) v (some (w.now + ttl * 1000)) (by rw [look_setE]; simp)), ?_,
+          (get?_put_nil _ _ _ hk hi.noEmpty)) hz v (some (deadlineAfter cfg.lim w.now ttl)) (by rw [look_setE]; simp)), ?_,
         by simp [OutOK, hv, ht]⟩
       rw [abs_after]
       simp only [specStep, hv, ht, Option.isSome_none, Bool.false_eq_true, or_self, ↓reduceIte, W.abs, SpecSt.mk.injEq, and_true]
@@ -579,8 +594,7 @@ theorem setTtl_ok (cfg : Cfg) (w : W) (hi : MemInv w.mem) (k : Key) (v : Val) (t
       rw [look_updateCache, look_setE]
       unfold Spec.upd
       by_cases e : k = k'
-      · have : w.now < w.now + ttl * 1000 := by omega
-        simp [e, live, this]
+      · simp [e]
       · simp [e]
 
 /-- a cache hit is what the authoritative path would return (cache coherence + the embedded expiry) -/
@@ -982,16 +996,16 @@ theorem batchBad_cons (l : Lim) (x : Key × Val) (r : List (Key × Val)) (h : ba
 
 /-- the memory loop of `setBatch(batch)` -/
 theorem setBatch_mem (cfg : Cfg) (kvs : List (Key × Val)) (hb : batchBad cfg.lim kvs = false) :
-    ∀ (m : Mem), MemInv m →
+    ∀ (m : Mem), MemInv m → CacheOff cfg m →
       MemInv (kvs.foldl (fun (m : Mem) x =>
         updateCache cfg { m with expiry := m.expiry.erase x.1, kv := m.kv.put x.1 x.2 } x.1 x.2 none) m) ∧
       (kvs.foldl (fun (m : Mem) x =>
         updateCache cfg { m with expiry := m.expiry.erase x.1, kv := m.kv.put x.1 x.2 } x.1 x.2 none) m).look
         = kvs.foldl (fun (sp : Spec) x => sp.upd x.1 (some (x.2, none))) m.look := by
   induction kvs with
-  | nil => intro m hi; exact ⟨hi, rfl⟩
+  | nil => intro m hi _; exact ⟨hi, rfl⟩
   | cons x r ih =>
-    intro m hi
+    intro m hi hz
     obtain ⟨hk, hr⟩ := batchBad_cons _ _ _ hb
     simp only [List.foldl_cons]
     have hx : MemInvX { m with expiry := m.expiry.erase x.1, kv := m.kv.put x.1 x.2 } x.1 :=
@@ -1003,8 +1017,9 @@ theorem setBatch_mem (cfg : Cfg) (kvs : List (Key × Val)) (hb : batchBad cfg.li
           exact hi.sub k')
         (Map.nodup_put _ _ _ hi.nodupKv) (Map.nodup_erase _ _ hi.nodupExp)
         (get?_put_nil _ _ _ hk hi.noEmpty)
-    have hi' := hx.updateCache cfg x.2 none (by rw [look_set]; simp)
-    obtain ⟨h1, h2⟩ := ih hr _ hi'
+    have hz' : CacheOff cfg ({ m with expiry := m.expiry.erase x.1, kv := m.kv.put x.1 x.2 } : Mem) := fun h0 => hz h0
+    have hi' := hx.updateCache cfg hz' x.2 none (by rw [look_set]; simp)
+    obtain ⟨h1, h2⟩ := ih hr _ hi' (CacheOff.updateCache cfg _ hz' _ _ _)
     refine ⟨h1, ?_⟩
     rw [h2, look_updateCache]
     congr 1
@@ -1013,7 +1028,7 @@ theorem setBatch_mem (cfg : Cfg) (kvs : List (Key × Val)) (hb : batchBad cfg.li
 
 /-- the memory loop of `setBatch(batch, ttl)` -/
 theorem setBatchTtl_mem (cfg : Cfg) (e : Int) (kvs : List (Key × Val)) (hb : batchBad cfg.lim kvs = false) :
-    ∀ (m : Mem), MemInv m →
+    ∀ (m : Mem), MemInv m → CacheOff cfg m →
       MemInv (kvs.foldl (fun (m : Mem) x =>
         let (id, m) := armTimer m
         updateCache cfg { m with kv := m.kv.put x.1 x.2, expiry := m.expiry.put x.1 ⟨e, id, false⟩ } x.1 x.2 (some e)) m) ∧
@@ -1022,9 +1037,9 @@ theorem setBatchTtl_mem (cfg : Cfg) (e : Int) (kvs : List (Key × Val)) (hb : ba
         updateCache cfg { m with kv := m.kv.put x.1 x.2, expiry := m.expiry.put x.1 ⟨e, id, false⟩ } x.1 x.2 (some e)) m).look
         = kvs.foldl (fun (sp : Spec) x => sp.upd x.1 (some (x.2, some e))) m.look := by
   induction kvs with
-  | nil => intro m hi; exact ⟨hi, rfl⟩
+  | nil => intro m hi _; exact ⟨hi, rfl⟩
   | cons x r ih =>
-    intro m hi
+    intro m hi hz
     obtain ⟨hk, hr⟩ := batchBad_cons _ _ _ hb
     simp only [List.foldl_cons, armTimer]
     have hx : MemInvX { m with kv := m.kv.put x.1 x.2, expiry := m.expiry.put x.1 ⟨e, m.nextTimer, false⟩, nextTimer := m.nextTimer + 1 } x.1 :=
@@ -1033,8 +1048,9 @@ theorem setBatchTtl_mem (cfg : Cfg) (e : Int) (kvs : List (Key × Val)) (hb : ba
         (sub_put_put m hi x.1 x.2 _)
         (Map.nodup_put _ _ _ hi.nodupKv) (Map.nodup_put _ _ _ hi.nodupExp)
         (get?_put_nil _ _ _ hk hi.noEmpty)
-    have hi' := hx.updateCache cfg x.2 (some e) (by rw [look_setE]; simp)
-    obtain ⟨h1, h2⟩ := ih hr _ hi'
+    have hz' : CacheOff cfg ({ m with kv := m.kv.put x.1 x.2, expiry := m.expiry.put x.1 ⟨e, m.nextTimer, false⟩, nextTimer := m.nextTimer + 1 } : Mem) := fun h0 => hz h0
+    have hi' := hx.updateCache cfg hz' x.2 (some e) (by rw [look_setE]; simp)
+    obtain ⟨h1, h2⟩ := ih hr _ hi' (CacheOff.updateCache cfg _ hz' _ _ _)
     refine ⟨h1, ?_⟩
     simp only [armTimer] at h2
     rw [h2, look_updateCache]
@@ -1042,10 +1058,10 @@ theorem setBatchTtl_mem (cfg : Cfg) (e : Int) (kvs : List (Key × Val)) (hb : ba
     funext k'
     rw [look_setE]; rfl
 
-/-- `live` commutes with a batch of insertions of live entries -/
-theorem live_foldl_upd (now : Int) (f : Val → Ent) (hf : ∀ v, live now (some (f v)) = some (f v)) (kvs : List (Key × Val)) :
+/-- `live` commutes with a batch of insertions -/
+theorem live_foldl_upd (now : Int) (f : Val → Ent) (kvs : List (Key × Val)) :
     ∀ (sp : Spec), (fun k => live now ((kvs.foldl (fun (sp : Spec) x => sp.upd x.1 (some (f x.2))) sp) k))
-      = kvs.foldl (fun (sp : Spec) x => sp.upd x.1 (some (f x.2))) (fun k => live now (sp k)) := by
+      = kvs.foldl (fun (sp : Spec) x => sp.upd x.1 (live now (some (f x.2)))) (fun k => live now (sp k)) := by
   induction kvs with
   | nil => intro sp; rfl
   | cons x r ih =>
@@ -1055,7 +1071,7 @@ theorem live_foldl_upd (now : Int) (f : Val → Ent) (hf : ∀ v, live now (some
     congr 1
     funext k
     unfold Spec.upd
-    by_cases e : x.1 = k <;> simp [e, hf]
+    by_cases e : x.1 = k <;> simp [e]
 
 theorem foldl_writeLog_mem (cfg : Cfg) {α : Type} (g : α → Rec) (l : List α) :
     ∀ (w0 : W), (l.foldl (fun w x => writeLog cfg w (g x)) w0).mem = w0.mem ∧
@@ -1065,7 +1081,7 @@ theorem foldl_writeLog_mem (cfg : Cfg) {α : Type} (g : α → Rec) (l : List α
   | cons x r ih => intro w0; simp only [List.foldl_cons]; rw [(ih _).1, (ih _).2]; exact ⟨rfl, rfl⟩
 
 /-- `setBatch(batch)` -/
-theorem setBatch_ok (cfg : Cfg) (w : W) (hi : MemInv w.mem) (kvs : List (Key × Val)) :
+theorem setBatch_ok (cfg : Cfg) (w : W) (hi : MemInv w.mem) (hz : CacheOff cfg w.mem) (kvs : List (Key × Val)) :
     MemInv (opSetBatch cfg w kvs).1.mem ∧ (opSetBatch cfg w kvs).1.abs = specStep cfg.lim w.abs (.setBatch kvs)
       ∧ OutOK cfg.lim w.abs (.setBatch kvs) (opSetBatch cfg w kvs).2 := by
   unfold opSetBatch
@@ -1078,7 +1094,7 @@ theorem setBatch_ok (cfg : Cfg) (w : W) (hi : MemInv w.mem) (kvs : List (Key × 
     | true => simp [specStep, OutOK, hi, hb, he]
     | false =>
       simp only [Bool.false_eq_true, ↓reduceIte]
-      obtain ⟨h1, h2⟩ := setBatch_mem cfg kvs hb w.mem hi
+      obtain ⟨h1, h2⟩ := setBatch_mem cfg kvs hb w.mem hi hz
       obtain ⟨h3, h4⟩ := foldl_writeLog_mem cfg (fun x : Key × Val => Rec.set x.1 x.2) kvs
         { w with mem := kvs.foldl (fun (m : Mem) x =>
           updateCache cfg { m with expiry := m.expiry.erase x.1, kv := m.kv.put x.1 x.2 } x.1 x.2 none) w.mem }
@@ -1088,10 +1104,10 @@ theorem setBatch_ok (cfg : Cfg) (w : W) (hi : MemInv w.mem) (kvs : List (Key × 
       rw [h3, h4]
       simp only [specStep, hb, Bool.false_eq_true, ↓reduceIte, SpecSt.mk.injEq, and_true]
       rw [h2]
-      exact live_foldl_upd w.now (fun v => (v, none)) (fun v => rfl) kvs w.mem.look
+      exact live_foldl_upd w.now (fun v => (v, none)) kvs w.mem.look
 
 /-- `setBatch(batch, ttl)` -/
-theorem setBatchTtl_ok (cfg : Cfg) (w : W) (hi : MemInv w.mem) (kvs : List (Key × Val)) (ttl : Int) :
+theorem setBatchTtl_ok (cfg : Cfg) (w : W) (hi : MemInv w.mem) (hz : CacheOff cfg w.mem) (kvs : List (Key × Val)) (ttl : Int) :
     MemInv (opSetBatchTtl cfg w kvs ttl).1.mem
       ∧ (opSetBatchTtl cfg w kvs ttl).1.abs = specStep cfg.lim w.abs (.setBatchTtl kvs ttl)
       ∧ OutOK cfg.lim w.abs (.setBatchTtl kvs ttl) (opSetBatchTtl cfg w kvs ttl).2 := by
@@ -1108,20 +1124,19 @@ theorem setBatchTtl_ok (cfg : Cfg) (w : W) (hi : MemInv w.mem) (kvs : List (Key 
       | true => simp [specStep, OutOK, hi, hb, he, ht]
       | false =>
         simp only [Bool.false_eq_true, ↓reduceIte]
-        obtain ⟨h1, h2⟩ := setBatchTtl_mem cfg (w.now + ttl * 1000) kvs hb w.mem hi
-        obtain ⟨h3, h4⟩ := foldl_writeLog_mem cfg (fun x : Key × Val => Rec.setE x.1 x.2 (w.now + ttl * 1000)) kvs
+        obtain ⟨h1, h2⟩ := setBatchTtl_mem cfg (deadlineAfter cfg.lim w.now ttl) kvs hb w.mem hi hz
+        obtain ⟨h3, h4⟩ := foldl_writeLog_mem cfg (fun x : Key × Val => Rec.setE x.1 x.2 (deadlineAfter cfg.lim w.now ttl)) kvs
           { w with mem := kvs.foldl (fun (m : Mem) x =>
             let (id, m) := armTimer m
-            updateCache cfg { m with kv := m.kv.put x.1 x.2, expiry := m.expiry.put x.1 ⟨w.now + ttl * 1000, id, false⟩ } x.1 x.2
-              (some (w.now + ttl * 1000))) w.mem }
+            updateCache cfg { m with kv := m.kv.put x.1 x.2, expiry := m.expiry.put x.1 ⟨deadlineAfter cfg.lim w.now ttl, id, false⟩ } x.1 x.2
+              (some (deadlineAfter cfg.lim w.now ttl))) w.mem }
         refine ⟨MemInv.maybeCompact _ _ (by rw [h3]; exact h1), ?_, by simp [OutOK, hb, he, ht]⟩
         rw [abs_maybeCompact]
         unfold W.abs
         rw [h3, h4]
         simp only [specStep, hb, ht, Bool.false_eq_true, or_self, ↓reduceIte, SpecSt.mk.injEq, and_true]
         rw [h2]
-        have hlt : w.now < w.now + ttl * 1000 := by omega
-        exact live_foldl_upd w.now (fun v => (v, some (w.now + ttl * 1000))) (fun v => by simp [live, hlt]) kvs w.mem.look
+        exact live_foldl_upd w.now (fun v => (v, some (deadlineAfter cfg.lim w.now ttl))) kvs w.mem.look
 
 end Iora.Kv
 
@@ -1179,17 +1194,17 @@ theorem removeWithPrefix_ok (cfg : Cfg) (w : W) (hi : MemInv w.mem) (p : Bytes) 
 
 /-- **simulation of one step** (memory part): every operation other than `reopen` keeps the invariants, acts on the
 abstract state exactly as `specStep` says, and returns what `OutOK` allows -/
-theorem step_mem_ok (cfg : Cfg) (w : W) (hi : MemInv w.mem) (op : Op) (hop : op ≠ .reopen) :
+theorem step_mem_ok (cfg : Cfg) (w : W) (hi : MemInv w.mem) (hz : CacheOff cfg w.mem) (op : Op) (hop : op ≠ .reopen) :
     MemInv (step cfg w op).1.mem ∧ (step cfg w op).1.abs = specStep cfg.lim w.abs op
       ∧ OutOK cfg.lim w.abs op (step cfg w op).2 := by
   have hi0 : MemInv ({ w with tr := [] } : W).mem := hi
   have habs0 : ({ w with tr := [] } : W).abs = w.abs := rfl
   unfold step
   cases op with
-  | set k v => simpa [habs0] using set_ok cfg { w with tr := [] } hi0 k v
-  | setTtl k v ttl => simpa [habs0] using setTtl_ok cfg { w with tr := [] } hi0 k v ttl
-  | setBatch kvs => simpa [habs0] using setBatch_ok cfg { w with tr := [] } hi0 kvs
-  | setBatchTtl kvs ttl => simpa [habs0] using setBatchTtl_ok cfg { w with tr := [] } hi0 kvs ttl
+  | set k v => simpa [habs0] using set_ok cfg { w with tr := [] } hi0 hz k v
+  | setTtl k v ttl => simpa [habs0] using setTtl_ok cfg { w with tr := [] } hi0 hz k v ttl
+  | setBatch kvs => simpa [habs0] using setBatch_ok cfg { w with tr := [] } hi0 hz kvs
+  | setBatchTtl kvs ttl => simpa [habs0] using setBatchTtl_ok cfg { w with tr := [] } hi0 hz kvs ttl
   | get k => simpa [habs0] using get_ok cfg { w with tr := [] } hi0 k
   | remove k =>
     obtain ⟨h1, h2⟩ := remove_ok cfg { w with tr := [] } hi0 k
@@ -1213,5 +1228,177 @@ theorem step_mem_ok (cfg : Cfg) (w : W) (hi : MemInv w.mem) (op : Op) (hop : op 
     obtain ⟨h1, h2⟩ := evictFire_ok cfg { w with tr := [] } hi0 k g
     exact ⟨h1, by rw [h2, habs0]; rfl, rfl⟩
   | reopen => exact absurd rfl hop
+
+end Iora.Kv
+
+namespace Iora.Kv
+open Iora
+
+/-! ## `maxCacheSize == 0`: the cache stays empty -/
+
+theorem updateCache_nil (cfg : Cfg) (h0 : cfg.maxCache = 0) (m : Mem) (hc : m.cache = []) (k : Key) (v : Val) (e : Option Int) :
+    (updateCache cfg m k v e).cache = [] := by
+  unfold updateCache; simp only [h0, ↓reduceIte]; exact hc
+
+theorem compact_nil (cfg : Cfg) (w : W) (hc : w.mem.cache = []) : (compactLocked cfg w).mem.cache = [] := by
+  simp [compactLocked, hc]
+
+theorem maybeCompact_nil (cfg : Cfg) (w : W) (hc : w.mem.cache = []) : (maybeCompact cfg w).mem.cache = [] := by
+  unfold maybeCompact; split
+  · exact compact_nil cfg w hc
+  · exact hc
+
+theorem erase_nil {β : Type} (k : Key) : Map.erase ([] : Map β) k = [] := rfl
+
+theorem opSet_nil (cfg : Cfg) (h0 : cfg.maxCache = 0) (w : W) (hc : w.mem.cache = []) (k : Key) (v : Val) :
+    (opSet cfg w k v).1.mem.cache = [] := by
+  unfold opSet
+  split
+  · exact hc
+  · exact maybeCompact_nil cfg _ (updateCache_nil cfg h0 _ (by exact hc) _ _ _)
+
+theorem opSetTtl_nil (cfg : Cfg) (h0 : cfg.maxCache = 0) (w : W) (hc : w.mem.cache = []) (k : Key) (v : Val) (ttl : Int) :
+    (opSetTtl cfg w k v ttl).1.mem.cache = [] := by
+  unfold opSetTtl
+  split
+  · exact hc
+  · split
+    · exact hc
+    · exact maybeCompact_nil cfg _ (updateCache_nil cfg h0 _ (by exact hc) _ _ _)
+
+theorem opGet_nil (cfg : Cfg) (h0 : cfg.maxCache = 0) (w : W) (hc : w.mem.cache = []) (k : Key) :
+    (opGet cfg w k).1.mem.cache = [] := by
+  unfold opGet
+  split
+  · exact hc
+  · simp only
+    split
+    · exact hc
+    · split
+      · exact hc
+      · split
+        · exact hc
+        · exact updateCache_nil cfg h0 _ (by exact hc) _ _ _
+
+theorem opRemove_nil (cfg : Cfg) (w : W) (hc : w.mem.cache = []) (k : Key) : (opRemove cfg w k).mem.cache = [] := by
+  unfold opRemove
+  split
+  · exact hc
+  · simp only
+    split
+    · exact maybeCompact_nil cfg _ (by simp [hc, erase_nil])
+    · exact hc
+
+theorem setBatch_fold_nil (cfg : Cfg) (h0 : cfg.maxCache = 0) (kvs : List (Key × Val)) :
+    ∀ m : Mem, m.cache = [] → (kvs.foldl (fun (m : Mem) x =>
+      updateCache cfg { m with expiry := m.expiry.erase x.1, kv := m.kv.put x.1 x.2 } x.1 x.2 none) m).cache = [] := by
+  induction kvs with
+  | nil => intro m hc; exact hc
+  | cons x r ih => intro m hc; exact ih _ (updateCache_nil cfg h0 _ (by exact hc) _ _ _)
+
+theorem setBatchTtl_fold_nil (cfg : Cfg) (h0 : cfg.maxCache = 0) (e : Int) (kvs : List (Key × Val)) :
+    ∀ m : Mem, m.cache = [] → (kvs.foldl (fun (m : Mem) x =>
+      let (id, m) := armTimer m
+      updateCache cfg { m with kv := m.kv.put x.1 x.2, expiry := m.expiry.put x.1 ⟨e, id, false⟩ } x.1 x.2 (some e)) m).cache = [] := by
+  induction kvs with
+  | nil => intro m hc; exact hc
+  | cons x r ih => intro m hc; exact ih _ (updateCache_nil cfg h0 _ (by exact hc) _ _ _)
+
+theorem opEvictFire_nil (cfg : Cfg) (w : W) (hc : w.mem.cache = []) (k : Key) (g : Nat) :
+    (opEvictFire cfg w k g).mem.cache = [] := by
+  unfold opEvictFire
+  simp only
+  split
+  · exact hc
+  · split
+    · exact hc
+    · split
+      · simp [armTimer, hc]
+      · simp [hc, erase_nil]
+
+theorem opSetBatch_nil (cfg : Cfg) (h0 : cfg.maxCache = 0) (w : W) (hc : w.mem.cache = []) (kvs : List (Key × Val)) :
+    (opSetBatch cfg w kvs).1.mem.cache = [] := by
+  unfold opSetBatch
+  split
+  · exact hc
+  · split
+    · exact hc
+    · refine maybeCompact_nil cfg _ ?_
+      rw [(foldl_writeLog_mem cfg _ kvs _).1]
+      exact setBatch_fold_nil cfg h0 kvs _ hc
+
+theorem opSetBatchTtl_nil (cfg : Cfg) (h0 : cfg.maxCache = 0) (w : W) (hc : w.mem.cache = []) (kvs : List (Key × Val)) (ttl : Int) :
+    (opSetBatchTtl cfg w kvs ttl).1.mem.cache = [] := by
+  unfold opSetBatchTtl
+  split
+  · exact hc
+  · split
+    · exact hc
+    · split
+      · exact hc
+      · refine maybeCompact_nil cfg _ ?_
+        rw [(foldl_writeLog_mem cfg _ kvs _).1]
+        exact setBatchTtl_fold_nil cfg h0 _ kvs _ hc
+
+theorem removeFold_nil (cfg : Cfg) (ks : List Key) :
+    ∀ (w0 : W), w0.mem.cache = [] → (ks.foldl (opRemove cfg) w0).mem.cache = [] := by
+  induction ks with
+  | nil => intro w0 h; exact h
+  | cons a r ih => intro w0 h; exact ih _ (opRemove_nil cfg w0 h a)
+
+theorem opExpireAt_nil (cfg : Cfg) (w : W) (hc : w.mem.cache = []) (k : Key) (t : Int) : (opExpireAt cfg w k t).mem.cache = [] := by
+  unfold opExpireAt
+  split
+  · exact hc
+  · simp only
+    split
+    · exact hc
+    · simp [armTimer, invalidateCache, hc, erase_nil]
+
+theorem opPersist_nil (cfg : Cfg) (w : W) (hc : w.mem.cache = []) (k : Key) : (opPersist cfg w k).mem.cache = [] := by
+  unfold opPersist
+  split
+  · exact hc
+  · simp only
+    split
+    · exact hc
+    · split
+      · exact hc
+      · split
+        · exact hc
+        · simp [invalidateCache, hc, erase_nil]
+
+theorem shutdownFold_nil (cfg : Cfg) (l : List (Key × Nat)) :
+    ∀ (w0 : W), w0.mem.cache = [] → (l.foldl (fun w x => opEvictFire cfg w x.1 x.2) w0).mem.cache = [] := by
+  induction l with
+  | nil => intro w0 h; exact h
+  | cons a r ih => intro w0 h; exact ih _ (opEvictFire_nil cfg w0 h a.1 a.2)
+
+theorem opReopen_nil (cfg : Cfg) (w : W) (hc : w.mem.cache = []) : (opReopen cfg w).1.mem.cache = [] := by
+  unfold opReopen opOpen
+  split
+  · exact shutdownFold_nil cfg _ _ hc
+  · rfl
+
+/-- `CacheOff` is an invariant of every step -/
+theorem cacheOff_step (cfg : Cfg) (w : W) (hz : CacheOff cfg w.mem) (op : Op) : CacheOff cfg (step cfg w op).1.mem := by
+  intro h0
+  have hc : ({ w with tr := [] } : W).mem.cache = [] := hz h0
+  unfold step
+  cases op with
+  | set k v => exact opSet_nil cfg h0 _ hc k v
+  | setTtl k v ttl => exact opSetTtl_nil cfg h0 _ hc k v ttl
+  | setBatch kvs => exact opSetBatch_nil cfg h0 _ hc kvs
+  | setBatchTtl kvs ttl => exact opSetBatchTtl_nil cfg h0 _ hc kvs ttl
+  | get k => exact opGet_nil cfg h0 _ hc k
+  | remove k => exact opRemove_nil cfg _ hc k
+  | removeWithPrefix p => exact removeFold_nil cfg _ _ hc
+  | clear => exact maybeCompact_nil cfg _ rfl
+  | expireAt k t => exact opExpireAt_nil cfg _ hc k t
+  | persist k => exact opPersist_nil cfg _ hc k
+  | compact => exact compact_nil cfg _ hc
+  | advance dt => exact hc
+  | evictFire k g => exact opEvictFire_nil cfg _ hc k g
+  | reopen => exact opReopen_nil cfg _ hc
 
 end Iora.Kv
